@@ -308,14 +308,25 @@ Inductive xop :=
 | XLookup (r : role) (src : sspec) (ck : N) (a : answers)
 | XResume (src : sspec) (ck : N) (a : answers)
 | XDecode (r : role) (src : sspec) (ck : N) (a : answers)   (* Hub.decodePrivateSessionId / decodePublicSessionId *)
-| XDump.                                           (* read the decode caches *)
+| XDump                                            (* read the decode caches *)
+(* ids made by the other request path, the cache operations by themselves, hub and codec side by side *)
+| XAddSession (d : cdata) (ts1 : string) (iv1 : bytes) (ts2 : string) (iv2 : bytes) (a : answers)
+                                                   (* internal client: addsession; the ids of the virtual session *)
+| XBoth (r : role) (src : sspec) (ck : N) (a : answers)
+                                                   (* the hub's decoder of role r, then hub.cookie.DecodePrivate /
+                                                      DecodePublic (no cache), on the same string *)
+| XPrefill (r : role) (src : sspec) (ck : N) (a : answers)
+                                                   (* setDecodedSessionId(string, name of r, what the codec answers
+                                                      for it); nothing when the codec refuses the string *)
+| XInvalidate (r : role) (src : sspec) (ck : N).   (* invalidateSessionId(string, name of r) *)
 Inductive xobs :=
 | WIds (priv pub : string)
 | WFailed
 | WNone
 | WFound (sid : N) | WNotFound
 | WData (d : cdata) | WNoData                      (* the hub's decoder returned that data / nil *)
-| WCaches (l : list (list (N * cdata))).           (* per cache, most recently used first: (chk of the key, data) *)
+| WCaches (l : list (list (N * cdata)))            (* per cache, most recently used first: (chk of the key, data) *)
+| WBoth (hubd codecd : option cdata).              (* XBoth: the hub's decoder returned / the codec returned (None: nil / an error) *)
 
 Definition dump_eqb (a b : list (list (N * cdata))) : bool :=
   (fix go (a b : list (list (N * cdata))) :=
@@ -339,6 +350,10 @@ Definition xobs_eqb (a b : xobs) : bool :=
   | WData x, WData y => cdata_eqb x y
   | WNoData, WNoData => true
   | WCaches x, WCaches y => dump_eqb x y
+  | WBoth a b, WBoth a' b' =>
+      let oeq := fun (x y : option cdata) => match x, y with
+                                             | Some u, Some v => cdata_eqb u v | None, None => true | _, _ => false end in
+      oeq a a' && oeq b b'
   | _, _ => false
   end.
 
@@ -383,6 +398,34 @@ Definition model_xop (k : kspec) (t : minted_tbl) (h : hub cdata) (o : xop) : hu
                   (h', Some (xobs_of_hout v), Some (chk s))
       end
   | XDump => (h, Some (WCaches (hub_dump h)), None)
+  | XAddSession d ts1 iv1 ts2 iv2 a =>
+      let '(h', v) := hub_step (oracles_of a) (ks_of k) h (HAddSession d (bs ts1) iv1 (bs ts2) iv2) in
+      (h', Some (xobs_of_hout v), None)
+  | XBoth r src ck a =>
+      match resolve t src with
+      | None => (h, None, None)
+      | Some s =>
+          let dat := fun (v : hout cdata) => match v with HData d => Some d | _ => None end in
+          let '(h1, v1) := hub_step (oracles_of a) (ks_of k) h (HDecode r s) in
+          let '(h2, v2) := hub_step (oracles_of a) (ks_of k) h1 (HCodec r s) in
+          (h2, Some (WBoth (dat v1) (dat v2)), Some (chk s))
+      end
+  | XPrefill r src ck a =>
+      match resolve t src with
+      | None => (h, None, None)
+      | Some s =>
+          match decode (oracles_of a) r (ks_of k) s with
+          | Ok d => let '(h', v) := hub_step (oracles_of a) (ks_of k) h (HPrefill r s d) in
+                    (h', Some (xobs_of_hout v), Some (chk s))
+          | Err _ => (h, Some WNone, Some (chk s))
+          end
+      end
+  | XInvalidate r src ck =>
+      match resolve t src with
+      | None => (h, None, None)
+      | Some s => let '(h', v) := hub_step (oracles_of no_answers) (ks_of k) h (HInvalidate r s) in
+                  (h', Some (xobs_of_hout v), Some (chk s))
+      end
   end.
 
 Fixpoint judge_hub (id : N) (k : kspec) (i : nat) (t : minted_tbl) (h : hub cdata) (tr : list (xop * xobs)) : list (N * N * N) :=
@@ -392,9 +435,11 @@ Fixpoint judge_hub (id : N) (k : kspec) (i : nat) (t : minted_tbl) (h : hub cdat
       let '(h', mo, mck) := model_xop k t h o in
       let here :=
         (match o, mck with
-         | XLookup _ _ ck _, Some c | XResume _ ck _, Some c | XDecode _ _ ck _, Some c =>
+         | XLookup _ _ ck _, Some c | XResume _ ck _, Some c | XDecode _ _ ck _, Some c
+         | XBoth _ _ ck _, Some c | XPrefill _ _ ck _, Some c | XInvalidate _ _ ck, Some c =>
              if N.eqb ck c then [] else [(id, 4%N, N.of_nat i)]
-         | XLookup _ _ _ _, None | XResume _ _ _, None | XDecode _ _ _ _, None => [(id, 4%N, N.of_nat i)]
+         | XLookup _ _ _ _, None | XResume _ _ _, None | XDecode _ _ _ _, None
+         | XBoth _ _ _ _, None | XPrefill _ _ _ _, None | XInvalidate _ _ _, None => [(id, 4%N, N.of_nat i)]
          | _, _ => []
          end) ++
         (match mo with
@@ -402,7 +447,7 @@ Fixpoint judge_hub (id : N) (k : kspec) (i : nat) (t : minted_tbl) (h : hub cdat
          | None => []
          end) in
       let t' := match o, ob with
-                | XRegister _ _ _ _ _ _, WIds p q => (i, (Some (bs p), Some (bs q))) :: t
+                | XRegister _ _ _ _ _ _, WIds p q | XAddSession _ _ _ _ _ _, WIds p q => (i, (Some (bs p), Some (bs q))) :: t
                 | _, _ => t
                 end in
       here ++ judge_hub id k (S i) t' h' rest
@@ -452,7 +497,7 @@ Fixpoint P_hub_go (i : nat) (t : minted_tbl) (live : list live_rec) (hs : list h
             end
         end in
       match o with
-      | XRegister d _ _ _ _ _ =>
+      | XRegister d _ _ _ _ _ | XAddSession d _ _ _ _ _ =>
           match ob with
           | WIds p q => P_hub_go (S i) ((i, (Some (bs p), Some (bs q))) :: t)
                                  ((fst d, bs p, bs q) :: filter (fun e => negb (N.eqb (fst (fst e)) (fst d))) live)
@@ -469,6 +514,19 @@ Fixpoint P_hub_go (i : nat) (t : minted_tbl) (live : list live_rec) (hs : list h
           | None => Some i
           end
       | XDump => P_hub_go (S i) t live hs rest
+      (* hub and codec side by side: the codec's answer is the data the string was minted with (for that
+         role; nothing for any other string), and the hub's answer is the codec's answer *)
+      | XBoth r src _ _ =>
+          match resolve t src, ob with
+          | Some s, WBoth hv cv =>
+              let w := fun (x : option cdata) => match x with Some d => WData d | None => WNoData end in
+              if decode_ok hs r s (w cv) && xobs_eqb (w hv) (w cv) && decode_ok hs r s (w hv)
+              then P_hub_go (S i) t live hs rest else Some i
+          | _, _ => Some i
+          end
+      (* the cache operations by themselves have nothing to answer *)
+      | XPrefill _ _ _ _ | XInvalidate _ _ _ =>
+          match ob with WNone => P_hub_go (S i) t live hs rest | _ => Some i end
       end
   end.
 Definition P_C15_hub (tr : list (xop * xobs)) : bool :=
